@@ -680,7 +680,9 @@ impl FilteredReadStream {
                     IndexExprResult::AtLeast(row_id_mask) => {
                         let valid_ranges = row_id_sequence.mask_to_offset_ranges(row_id_mask);
                         let mut guaranteed_ranges = Self::intersect_ranges(&to_read, &valid_ranges);
-                        fragments_to_read.insert(fragment_id, guaranteed_ranges.clone());
+                        // Rows outside an AtLeast mask may still match: unless the limit is pushed
+                        // down, the whole fragment is read and rechecked with the full filter
+                        fragments_to_read.insert(fragment_id, to_read);
 
                         Self::apply_skip_take_to_ranges(&mut guaranteed_ranges, to_skip, to_take);
                         scan_push_down_fragments_to_read.insert(fragment_id, guaranteed_ranges);
